@@ -25,7 +25,7 @@ def _scratch():
 def _copy_repo(dst):
     os.makedirs(dst, exist_ok=True)
     shutil.copytree(os.path.join(REPO, 'tenpy'), os.path.join(dst, 'tenpy'),
-                    ignore=shutil.ignore_patterns('__pycache__', '*.so', '*.cpp', '*.c'))
+                    ignore=shutil.ignore_patterns('__pycache__', '*.so', '*.c'))
 
 
 def run_check(pid, repo, out):
